@@ -1,6 +1,7 @@
 package main
 
 import (
+	"github.com/consensys/gnark-crypto/ecc"
 	"bytes"
 	"encoding/json"
 	"fmt"
@@ -103,17 +104,13 @@ func canonVal(x *ssax.Exec, v ssax.Val, t gotypes.Type, sb *strings.Builder) {
 		}
 		canonVal(x, a.V, a.T, sb)
 	case *ssax.Opaque:
-		if strings.HasPrefix(a.Tag, "big.SetString/base") && len(a.Args) == 1 {
-			var base int
-			fmt.Sscanf(a.Tag, "big.SetString/base%d", &base)
-			if s, ok := a.Args[0].(*ssax.StrV); ok && s.K != nil {
-				if b, ok := new(big.Int).SetString(*s.K, base); ok {
-					sb.WriteString(b.String())
-				} else {
-					sb.WriteString("nil")
-				}
-				return
+		if b, known, isNil := bigOf(a); known {
+			if isNil {
+				sb.WriteString("nil")
+			} else {
+				sb.WriteString(new(big.Int).Mod(b, R).String())
 			}
+			return
 		}
 		sb.WriteString("<" + a.Tag + ">")
 	case *ssax.StructV:
@@ -156,6 +153,39 @@ func canonVal(x *ssax.Exec, v ssax.Val, t gotypes.Type, sb *strings.Builder) {
 	default:
 		fmt.Fprintf(sb, "<%T>", v)
 	}
+}
+
+// bigOf evaluates an opaque big-integer value whose arguments are concrete.
+func bigOf(v ssax.Val) (b *big.Int, known, isNil bool) {
+	a, ok := v.(*ssax.Opaque)
+	if !ok {
+		return nil, false, false
+	}
+	switch {
+	case strings.HasPrefix(a.Tag, "big.SetString/base") && len(a.Args) == 1:
+		var base int
+		fmt.Sscanf(a.Tag, "big.SetString/base%d", &base)
+		if s, ok := a.Args[0].(*ssax.StrV); ok && s.K != nil {
+			if b, ok := new(big.Int).SetString(*s.K, base); ok {
+				return b, true, false
+			}
+			return nil, true, true
+		}
+	case a.Tag == "ecc.BaseField" || a.Tag == "ecc.ScalarField":
+		if id, ok := a.Args[0].(*ssax.Term); ok && id.Conc() {
+			if a.Tag == "ecc.BaseField" {
+				return ecc.ID(id.Int()).BaseField(), true, false
+			}
+			return ecc.ID(id.Int()).ScalarField(), true, false
+		}
+	case a.Tag == "big.Mod" && len(a.Args) == 2:
+		x, k1, n1 := bigOf(a.Args[0])
+		m, k2, n2 := bigOf(a.Args[1])
+		if k1 && k2 && !n1 && !n2 && m.Sign() != 0 {
+			return new(big.Int).Mod(x, m), true, false
+		}
+	}
+	return nil, false, false
 }
 
 type witnessProbe struct {
@@ -319,7 +349,7 @@ func firstDiff(a, b string) string {
 }
 
 // randomiseDoc replaces every number by a random 64-bit value and every numeric string by a random
-// decimal numeral below the BN254 modulus (same shape).
+// decimal numeral (same shape): mostly below the BN254 scalar modulus, one in eight anywhere below 2^256.
 func randomiseDoc(d any, rng *rand.Rand) any {
 	switch v := d.(type) {
 	case map[string]any:
@@ -342,6 +372,10 @@ func randomiseDoc(d any, rng *rand.Rand) any {
 		return json.Number(fmt.Sprint(x))
 	case string:
 		b := new(big.Int).Rand(rng, R)
+		// one in eight is a numeral above the scalar modulus (window [r, 2^256)): only its residue counts
+		if rng.Intn(8) == 0 {
+			b = new(big.Int).Rand(rng, new(big.Int).Lsh(big.NewInt(1), 256))
+		}
 		return b.String()
 	}
 	return d
